@@ -31,6 +31,7 @@ structure Cfg where
   maxSize : Nat           -- Linker.MAX_SUB_NET_SIZE
   vel : Option (List Int) -- predictor: constant drift per unit time, none = no predictor
   drop : Bool             -- link_strategy = 'drop'
+  noOpt : Bool := false   -- validity only (C01): skip the optimality part of the relation
   deriving Repr
 
 structure Source where
@@ -131,63 +132,115 @@ def nextState (cfg : Cfg) (st : State) (t : Int) (dsts : List Pos) (labels : Lis
   let lvl := (dsts.zip labels).map (fun (p, l) => ({ pos := p, track := l, t := t, age := 0 } : Source))
   { srcs := lvl ++ kept, used := labels ++ st.used }
 
-/-- The step relation.  `labels = none` encodes "the implementation raised
+def stepCands (cfg : Cfg) (st : State) (t : Int) (dsts : List Pos) : List (List Cand) :=
+  st.srcs.map (candsOf cfg t dsts)
+
+def stepGroups (cfg : Cfg) (st : State) (t : Int) (dsts : List Pos) : List Group :=
+  subnets dsts.length (stepCands cfg st t dsts)
+
+/-- candidate list of source number `i` -/
+def srcOf (cands : List (List Cand)) (i : Nat) : Src := getD' cands i []
+
+/-- what the implementation chose for source number `i` -/
+def asgOf (cfg : Cfg) (st : State) (labels : List Nat) (cands : List (List Cand)) (i : Nat) : Cand :=
+  match st.srcs[i]? with
+  | some s => chosenOf cfg labels (getD' cands i []) s
+  | none => (none, cfg.B)
+
+/-- candidate lists of the sources of each sub-net -/
+def gSrcs (cands : List (List Cand)) (groups : List Group) : List (List Src) :=
+  groups.map (fun g => g.1.map (srcOf cands))
+
+/-- what the implementation chose for the sources of each sub-net -/
+def gAsg (cfg : Cfg) (st : State) (labels : List Nat) (cands : List (List Cand))
+    (groups : List Group) : List (List Cand) :=
+  groups.map (fun g => g.1.map (asgOf cfg st labels cands))
+
+/-- more sources within range of one destination than `MAX_NEIGHBORS` -/
+def cappedB (cfg : Cfg) (st : State) (t : Int) (dsts : List Pos) : Bool :=
+  dsts.any (fun q => nNeighbors cfg t st.srcs q > cfg.maxNeighbors)
+
+def oversizeB (cfg : Cfg) (groups : List Group) : Bool :=
+  groups.any (fun g => g.1.length > cfg.maxSize && !(g.1.length == 1 && g.2.length == 1))
+
+/-- the labels that do not continue a source's trajectory -/
+def freshLabels (st : State) (labels : List Nat) : List Nat :=
+  labels.filter (fun l => !((st.srcs.map (·.track)).contains l))
+
+/-- every link stays within range of the (predicted) position of the source it continues -/
+def linksOkB (cfg : Cfg) (st : State) (t : Int) (dsts : List Pos) (labels : List Nat) : Bool :=
+  (dsts.zip labels).all (fun (q, l) =>
+    match st.srcs.find? (fun s => s.track == l) with
+    | none => true
+    | some s => dist2 cfg.w (view cfg t s) q ≤ cfg.B)
+
+/-- C01 part of the relation; returns the reason of the first failed test -/
+def validWhy (cfg : Cfg) (st : State) (t : Int) (dsts : List Pos) (labels : List Nat) :
+    Option String :=
+  if labels.length ≠ dsts.length then some "one label per feature expected" else
+  if !(decide labels.Nodup) then some "label used twice in one level" else
+  if (freshLabels st labels).any (fun l => st.used.contains l) then
+    some "a new trajectory re-uses an old label" else
+  if !(linksOkB cfg st t dsts labels) then some "link longer than search_range" else none
+
+/-- optimality of one sub-net: the chosen candidates are admissible and cost what the proven
+optimum costs ('drop': contested sub-nets stay entirely unlinked) -/
+def groupOkB (cfg : Cfg) (ss : List Src) (a : List Cand) (g : Group) : Bool :=
+  if ss.isEmpty then true
+  else if cfg.drop && !(g.1.length == 1 && g.2.length == 1) then a.all (fun c => c.1.isNone)
+  else
+    ss.all sortedB && admissibleB ss a [] &&
+    (match solveOrdered ss with
+     | some (c, _) => cost a == c
+     | none => false)
+
+/-- C02 part of the relation -/
+def optWhy (cfg : Cfg) (st : State) (t : Int) (dsts : List Pos) (labels : List Nat) :
+    Option String :=
+  let cands := stepCands cfg st t dsts
+  let groups := stepGroups cfg st t dsts
+  let gs := gSrcs cands groups
+  let ga := gAsg cfg st labels cands groups
+  if !(pairwiseDisjointB (gs.map groupDests)) then some "internal: sub-nets share a destination" else
+  if !((gs.zip (ga.zip groups)).all (fun (ss, a, g) => groupOkB cfg ss a g)) then
+    some (if cfg.drop then "drop strategy linked inside a contested sub-net"
+          else "links are not a minimum-cost assignment")
+  else none
+
+/-- The step relation.  `labels? = none` encodes "the implementation raised
 SubnetOversizeException". -/
 def stepCheck (cfg : Cfg) (st : State) (t : Int) (dsts : List Pos) (labels? : Option (List Nat)) :
     Verdict :=
-  let cands := st.srcs.map (candsOf cfg t dsts)
-  let groups := subnets dsts.length cands
-  let capped := dsts.any (fun q => nNeighbors cfg t st.srcs q > cfg.maxNeighbors)
-  -- the shortcut cases (1 source/1 destination) never raise
-  let oversize := groups.any (fun g => g.1.length > cfg.maxSize && !(g.1.length == 1 && g.2.length == 1))
+  let groups := stepGroups cfg st t dsts
+  let capped := cappedB cfg st t dsts
+  let oversize := oversizeB cfg groups
   match labels? with
   | none => if capped then .capped else
             if oversize then .expectOversize
             else .bad "raised SubnetOversizeException but no sub-net is oversize"
   | some labels =>
   if oversize && !capped then .bad "returned labels although a sub-net is oversize" else
-  if labels.length ≠ dsts.length then .bad "one label per feature expected" else
-  if !(decide labels.Nodup) then .bad "label used twice in one level" else
-  -- every label is the track of a source within range, or brand new
-  let srcTracks := st.srcs.map (·.track)
-  let fresh := labels.filter (fun l => !(srcTracks.contains l))
-  if fresh.any (fun l => st.used.contains l) then .bad "a new trajectory re-uses an old label" else
-  let linksOk := (dsts.zip labels).all (fun (q, l) =>
-    match st.srcs.find? (fun s => s.track == l) with
-    | none => true
-    | some s => dist2 cfg.w (view cfg t s) q ≤ cfg.B)
-  if !linksOk then .bad "link longer than search_range" else
+  match validWhy cfg st t dsts labels with
+  | some why => .bad why
+  | none =>
   let contested := (groups.filter (fun g => g.1.length ≥ 2 || (g.1.length == 1 && g.2.length ≥ 2))).length
   let relinks := (st.srcs.filter (fun s => s.age > 0 && labels.contains s.track)).length
+  let births := (freshLabels st labels).length
   -- beyond the neighbour cap the code uses the nearest `maxNeighbors` only: outside C02's quantifier
-  if capped then .ok (nextState cfg st t dsts labels) contested relinks fresh.length true else
-  -- optimality, sub-net by sub-net
-  let gsrcs := groups.map (fun g => g.1.map (fun i => getD' cands i []))
-  let gasg := groups.map (fun g => g.1.map (fun i =>
-      match st.srcs[i]? with
-      | some s => chosenOf cfg labels (getD' cands i []) s
-      | none => (none, cfg.B)))
-  let disj := pairwiseDisjointB (gsrcs.map groupDests)
-  if !disj then .bad "internal: sub-nets share a destination" else
-  let optOk := (gsrcs.zip (gasg.zip groups)).all (fun (ss, a, g) =>
-    if ss.isEmpty then true
-    else if cfg.drop && !(g.1.length == 1 && g.2.length == 1) then
-      a.all (fun c => c.1.isNone)                  -- 'drop': contested groups stay unlinked
-    else
-      ss.all sortedB && admissibleB ss a [] &&
-      (match solveOrdered ss with
-       | some (c, _) => cost a == c
-       | none => false))
-  if !optOk then .bad (if cfg.drop then "drop strategy linked inside a contested sub-net"
-                       else "links are not a minimum-cost assignment") else
-  .ok (nextState cfg st t dsts labels) contested relinks fresh.length false
+  if capped || cfg.noOpt then .ok (nextState cfg st t dsts labels) contested relinks births true else
+  match optWhy cfg st t dsts labels with
+  | some why => .bad why
+  | none => .ok (nextState cfg st t dsts labels) contested relinks births false
+
+/-- placeholder configuration for the first level (no sources exist yet) -/
+def initCfg : Cfg :=
+  { w := [], B := 0, memory := 0, maxNeighbors := 0, maxSize := 0, vel := none, drop := false }
 
 /-- first level: everything starts a trajectory (`init_level`) -/
 def initCheck (t : Int) (dsts : List Pos) (labels : List Nat) : Verdict :=
   if labels.length ≠ dsts.length then .bad "one label per feature expected" else
   if !(decide labels.Nodup) then .bad "label used twice in one level" else
-  .ok (nextState { w := [], B := 0, memory := 0, maxNeighbors := 0, maxSize := 0, vel := none,
-                   drop := false } { srcs := [], used := [] } t dsts labels) 0 0 labels.length false
+  .ok (nextState initCfg { srcs := [], used := [] } t dsts labels) 0 0 labels.length false
 
 structure Level where
   t : Int
